@@ -177,7 +177,10 @@ class _P:
             return out
         while True:
             self.ws()
-            m = re.match(r"[A-Za-z_][A-Za-z0-9_]*", self.s[self.i:])
+            # TLC prints a function over strings as a record whatever the strings look like ("11", "1.100000001", "A|1.1|11")
+            m = re.match(r"[^\s\[\]<>{}(),\"]+?(?=\s*\|->)", self.s[self.i:])
+            if not m:
+                raise ValueError("bad record key at %r" % self.s[self.i:self.i + 40])
             k = m.group(0)
             self.i += len(k)
             self.ws()
@@ -232,7 +235,16 @@ def printed_tuples(out, tags=("VIOL", "DRIFT", "INFO")):
             v = p.value()
             res.append(v)
             i = p.i
-        except Exception:
+        except Exception as ex:
+            # never drop a verdict: keep the header fields and the raw text of what could not be parsed
+            raw = out[m.start():m.start() + 1500]
+            head = re.match(r'<<\s*"(\w+)"\s*,\s*"([^"]*)"\s*,\s*"([^"]*)"\s*,\s*(?:"([^"]*)"\s*,\s*)?(-?\d+)?', raw)
+            if head and head.group(1) == "VIOL":
+                res.append(["VIOL", head.group(2), head.group(3), head.group(4) or "?", int(head.group(5) or -1), {"unparsed": raw[:600], "parse_error": str(ex)[:200]}])
+            elif head and head.group(1) == "DRIFT":
+                res.append(["DRIFT", head.group(2), head.group(3), int(head.group(5) or -1) if head.group(4) is None else head.group(4), {"unparsed": raw[:600]}])
+            else:
+                res.append([m.group(1), "?", "unparsed", "?", -1, {"unparsed": raw[:600], "parse_error": str(ex)[:200]}])
             i = m.end()
     return res
 
